@@ -1,12 +1,12 @@
 package outb
 
 import (
-	"strings"
 	"fmt"
 	"net"
 	"os"
 	"path/filepath"
 	"runtime"
+	"strings"
 	"sync"
 	"sync/atomic"
 	"syscall"
